@@ -46,6 +46,10 @@ func linkKeyIO(seed string) iface.IO {
 		panic(err)
 	}
 	io := base.ApplyOptions(&cbor.Options{LinkKey: sk})
+	// another codec (another key) is derived from this one and thrown away: deriving configures the new codec only
+	if k3, err := enc.NewSecretbox(bytes.Repeat([]byte{0x33}, 32)); err == nil {
+		_ = io.ApplyOptions(&cbor.Options{LinkKey: k3})
+	}
 	// the caller's key buffer is the caller's: it is reused afterwards (a scratch buffer read
 	// from a file, a buffer wiped after use); the codec keeps the key it was given, not the buffer
 	// (the same bytes whatever the key was: a codec that kept the buffer would make all keys one key)
@@ -145,6 +149,12 @@ func c08One(p *run.Part, spec entrySpec, codec string) (cidStr string) {
 	if err != nil {
 		viol("create-failed", err.Error())
 		return ""
+	}
+	if c, ok := io.(*cbor.IOCbor); ok && codec == "linkkey" {
+		// between the write and the read another codec is derived from this one: this one stays what it was
+		if k3, err := enc.NewSecretbox(bytes.Repeat([]byte{0x44}, 32)); err == nil {
+			_ = c.ApplyOptions(&cbor.Options{LinkKey: k3})
+		}
 	}
 	d, err := entry.FromMultihashWithIO(world.Ctx, st, e.GetHash(), world.IDs[spec.Writer].Provider, io)
 	if err != nil {
